@@ -267,7 +267,10 @@ TableDeviationNames ==
       "Epub!NestedTableGarbles",       \* a table containing a nested table loses its own cells
       "Xlsx!TableNameRowSkipped",      \* a first row with exactly one non-empty cell is dropped from the table
       "Rtf!NeighbourTablesMerged",
-      "Epub!CellInlineSpaced" }        \* text of adjacent inline elements in a cell is joined with a blank ("zq00 03x")    \* tables separated by less than ~20 characters of text are returned as one
+      "Epub!CellInlineSpaced",
+      "Xls!HeaderOnlySheetEmpty",      \* a sheet with a single row yields an empty table (XlsSheet.get_table needs data rows)
+      "Xls!HeaderKeyCollision",        \* rows are dicts keyed by header text: equal (e.g. empty) header names lose columns
+      "Xls!ErrorCellNone" }            \* the value of an error cell is None        \* text of adjacent inline elements in a cell is joined with a blank ("zq00 03x")    \* tables separated by less than ~20 characters of text are returned as one
 
 RECURSIVE TopTables(_)
 TopTables(bs) ==
@@ -328,14 +331,20 @@ MergedMatch(src, obs, fmt, dev) ==
             /\ MergedMatch(SubSeq(src, k + 1, Len(src)), Tail(obs), fmt, dev)
 
 TablesOK(d, fmt, obs, dev) ==
-    LET src == ConcatAll([k \in DOMAIN d.units |-> TopTables(d.units[k].blocks)])
+    LET src0 == ConcatAll([k \in DOMAIN d.units |-> TopTables(d.units[k].blocks)])
+        src == IF "Xls!HeaderOnlySheetEmpty" \in dev /\ fmt = "xls"
+               THEN SelectSeq(src0, LAMBDA t : Len(t[2]) # 1) ELSE src0
+        collide(t) == \E i, j \in DOMAIN t[2][1] : i # j /\ CellIds(t[2][1][i], fmt) = CellIds(t[2][1][j], fmt)
         nested == \E k \in DOMAIN src : HasNested(src[k])
         nonempty == SelectSeq(obs, LAMBDA g : g.grid # <<>>)        \* an empty sheet may or may not yield a table
     IN /\ \A k \in DOMAIN obs : obs[k].dim[1] = Len(obs[k].grid)
        /\ IF nested
           THEN SubseqMatch(src, nonempty, fmt, dev) \/ ("Epub!NestedTableGarbles" \in dev /\ fmt = "epub")
           ELSE \/ /\ Len(nonempty) = Len(src)                        \* none lost, merged or invented
-                  /\ \A k \in DOMAIN src : GridMatches(src[k], fmt, nonempty[k], dev)
+                  /\ \A k \in DOMAIN src :
+                        \/ GridMatches(src[k], fmt, nonempty[k], dev)
+                        \/ /\ "Xls!HeaderKeyCollision" \in dev /\ fmt = "xls" /\ src[k][2] # <<>> /\ collide(src[k])
+                           /\ Len(nonempty[k].grid) = Len(src[k][2])       \* same rows, some columns lost
                \/ ("Rtf!NeighbourTablesMerged" \in dev /\ fmt = "rtf" /\ Len(src) > 1
                      /\ MergedMatch(src, nonempty, fmt, dev))
 
@@ -345,7 +354,7 @@ TablesOK(d, fmt, obs, dev) ==
      [k |-> "str", s |-> text]        [k |-> "ids", v |-> token ids]          [k |-> "other", s |-> repr]
    The writer puts: n = 7, nf = 1.5, z = 0, b = TRUE, bf = FALSE, d = 2024-01-02T03:04:05, date = 2024-01-02, t = 03:04:05,
    e = #DIV/0! (error value), f = formula with cached result 2.5, s = one token, empty = nothing.       *)
-TypedAcceptable(kind, oc) ==
+TypedAcceptable(kind, oc, fmt, dev) ==
     CASE kind = "n"     -> oc.k = "num" /\ oc.n2 = 14
       [] kind = "nf"    -> oc.k = "num" /\ oc.n2 = 3
       [] kind = "z"     -> oc.k = "num" /\ oc.n2 = 0                                  \* a zero is a value, not an empty cell
@@ -354,13 +363,14 @@ TypedAcceptable(kind, oc) ==
       [] kind = "d"     -> oc.k = "str" /\ oc.s = "2024-01-02T03:04:05"              \* dates as ISO strings
       [] kind = "date"  -> oc.k = "str" /\ oc.s \in {"2024-01-02", "2024-01-02T00:00:00"}
       [] kind = "t"     -> oc.k = "str" /\ oc.s \in {"03:04:05", "PT03H04M05S"}       \* either ISO 8601 form
-      [] kind = "e"     -> oc.k = "str" /\ oc.s = "#DIV/0!"
+      [] kind = "e"     -> \/ (oc.k = "str" /\ oc.s = "#DIV/0!")
+                           \/ ("Xls!ErrorCellNone" \in dev /\ fmt = "xls" /\ oc.k = "ids" /\ oc.v = <<>>)
       [] kind = "f"     -> oc.k = "num" /\ oc.n2 = 5                                  \* formula result
       [] kind = "s"     -> oc.k = "ids" /\ Len(oc.v) = 1
       [] kind = "empty" -> oc.k = "ids" /\ oc.v = <<>>
 
-TypedRowOK(kinds, row) ==
+TypedRowOK(kinds, row, fmt, dev) ==
     /\ Len(row) >= Len(kinds) \/ \A j \in (Len(row) + 1)..Len(kinds) : kinds[j] = "empty"
-    /\ \A j \in DOMAIN row : IF j <= Len(kinds) THEN TypedAcceptable(kinds[j], row[j])
+    /\ \A j \in DOMAIN row : IF j <= Len(kinds) THEN TypedAcceptable(kinds[j], row[j], fmt, dev)
                                                ELSE row[j].k = "ids" /\ row[j].v = <<>>
 =============================================================================
